@@ -263,6 +263,29 @@ fn probe(valid: &AlignedBuf, buf: &AlignedBuf, names: &Names, traces: &[TTrace],
         let _ = c.sig(s);
         rep.count("evaluations", 1);
     }
+    // signature strings: descriptors over the file's class names (the lookups read the
+    // possibly corrupted class table), every single edit of one of them, and arbitrary
+    // strings over the descriptor delimiters with multi-byte characters at slice ends
+    {
+        let mut r = Rng::new(pgvcore::rng::mix(&[case_idx, pgvcore::util::fnv1a(desc.as_bytes()), buf.len() as u64]));
+        let d = pgvcore::desc::gen_desc(&mut r, &names.classes).print();
+        let _ = c.sig(&d);
+        rep.count("evaluations", 1);
+        let slow = cfg!(miri) || std::env::var_os("PGV_SLOW").is_some();
+        for e in pgvcore::desc::single_edits(&d).iter().take(if slow { 8 } else { 40 }) {
+            let _ = c.sig(e);
+            rep.count("evaluations", 1);
+            rep.count("signature_queries_single_edit", 1);
+        }
+        for _ in 0..(if slow { 4 } else { 12 }) {
+            let s = pgvcore::desc::arbitrary_sig(&mut r);
+            if !s.is_ascii() {
+                rep.count("signature_queries_with_multibyte", 1);
+            }
+            let _ = c.sig(&s);
+            rep.count("evaluations", 1);
+        }
+    }
     if felt {
         rep.count("corruptions_felt_by_a_query", 1);
         rep.distinct(Fp::new().bytes(buf.as_slice()).get());
